@@ -41,7 +41,10 @@ META = {
         "MockState.nested_parse renders beneath its node argument (not appended), MockInliner.parse renders into a fresh "
         "container and returns its children, include and substitution render in place; current_node_context switches and "
         "restores. R4: every piece of renderer/document/env state changed around a nested render is restored to the value "
-        "saved before it (nested_render_text._restore; the try/finally of the include mock). R5: the fields of "
+        "saved before it (nested_render_text._restore; the try/finally of the include mock); the in-progress markers of the "
+        "re-entrant renders (include stack, substitution reference set) are removed on every return/exception path after they "
+        "were inserted, and their keys are not computed relative to state the same function swaps for the nested render (nor "
+        "reduced to a file name). R5: the fields of "
         "DirectiveParsingResult reach the directive constructor, the include mock and parse_directive_block under the "
         "matching keyword/position. R6: on every data-flow path from the inserted text (directive content, block handed to "
         "nested_parse / inliner.parse, text read from the included file, value rendered by the substitution template) to the "
@@ -1025,7 +1028,7 @@ def _guard_sig(cfg, st) -> list[str]:
 
 @rule("C06.R4")
 def r4_state_restored(corpus: Corpus, rep: Report, tier: str):
-    rep.rule("C06.R4", "state changed around a nested render (heading offset, level map, temp root, document source, reporter, md_env keys) is restored to the value saved before it")
+    rep.rule("C06.R4", "state changed around a nested render (heading offset, level map, temp root, document source, reporter, md_env keys) is restored to the value saved before it; in-progress markers are removed on every exit and keyed depth-independently")
     base = corpus.mod("mdit_to_docutils.base")
     nrt = corpus.func(f"{RENDERER}.nested_render_text")
     inner = [f for f in base.functions.values() if f.parent_func == nrt and not f.is_lambda and f.is_generator()]
@@ -1102,6 +1105,8 @@ def r4_state_restored(corpus: Corpus, rep: Report, tier: str):
     else:
         rep.violation("C06.R4", k, nrt.site(), "the nested tokens are rendered outside `with _restore()` (or _restore is not a context manager): heading offset / level map / temp root leak into the rest of the document")
 
+    _r4_markers(corpus, rep)
+
     # the include mock: try/finally around the nested render
     inc = corpus.func("mocking:MockIncludeDirective.run")
     calls = [c for c in _fn_calls(inc) if isinstance(c.func, ast.Attribute) and c.func.attr == "nested_render_text"]
@@ -1173,7 +1178,158 @@ def r4_state_restored(corpus: Corpus, rep: Report, tier: str):
                 rep.violation("C06.R4", k, site, f"{key} is changed for the included file and not restored in finally: everything after the include is rendered with the included file's value")
     if n_w < 3:
         rep.error("C06.R4", f"include mock: expected the source/reporter/md_env swaps inside the try, found {n_w} store(s)")
-    rep.expect_min("C06.R4", 8, "three _restore pairs, the with-block, five swaps in the include mock")
+    rep.expect_min("C06.R4", 10, "three _restore pairs, the with-block, five swaps in the include mock, marker removal/key frame for include and substitution")
+
+
+MARKER_INSERTS = {"add", "update", "append", "extend", "insert", "appendleft"}
+MARKER_REMOVALS = {"difference_update", "discard", "remove", "pop", "popleft", "clear"}
+RELATIVISING = {"relpath", "relative_to"}
+
+
+def _doc_scoped(e: ast.AST) -> bool:
+    d = dotted(e)
+    if not d:
+        return False
+    parts = d.split(".")
+    return parts[0] == "self" and "document" in parts[1:-1]
+
+
+def _alias_norm(key: str, fi: FunctionInfo) -> str:
+    """``self.renderer.document...`` and ``self.document...`` name the same object when the constructor
+    binds ``self.document = <p>.document`` and ``self.renderer = <p>``."""
+    owner = fi
+    while owner is not None and owner.cls is None:
+        owner = owner.parent_func
+    if owner is None:
+        return key
+    init = owner.cls.methods.get("__init__")
+    if init is None:
+        return key
+    binds = {}
+    for n in init.local_nodes():
+        if isinstance(n, ast.Assign) and len(n.targets) == 1 and isinstance(n.targets[0], ast.Attribute) and unparse(n.targets[0].value) == "self":
+            binds[n.targets[0].attr] = unparse(n.value)
+    for attr, val in binds.items():
+        # self.<attr> = <p>.<x>   and   self.<r> = <p>   =>   self.<r>.<x> == self.<attr>
+        if "." in val:
+            p_, x_ = val.split(".", 1)
+            for r_, v2 in binds.items():
+                if v2 == p_ and key.startswith(f"self.{r_}.{x_}"):
+                    return f"self.{attr}" + key[len(f"self.{r_}.{x_}"):]
+    return key
+
+
+def _def_closure(exprs: list[ast.AST], fi: FunctionInfo) -> list[ast.AST]:
+    """The expressions plus, transitively, every value bound to a local they mention."""
+    out: list[ast.AST] = []
+    seen: set[str] = set()
+    work = list(exprs)
+    bs = _bindings(fi)
+    while work:
+        e = work.pop()
+        out.append(e)
+        for nm in _names_in(e):
+            if nm in seen or nm == "self":
+                continue
+            seen.add(nm)
+            for names, val in bs:
+                if nm in names:
+                    work.append(val)
+    return out
+
+
+def _r4_markers(corpus: Corpus, rep: Report) -> None:
+    """In-progress markers (cycle guards of re-entrant nested renders): removed on every exit, keyed in a frame
+    that does not change with the nesting depth."""
+    g = get_callgraph(corpus)
+    nrt = corpus.func(f"{RENDERER}.nested_render_text")
+    n_markers = 0
+    for fi in sorted({f for f, _ in g.callers().get(nrt.fq, [])}, key=lambda f: f.fq):
+        if fi.is_lambda:
+            continue
+        nodes_ = fi.local_nodes()
+        dr = lambda e, fi=fi: _deref(e, fi) if isinstance(e, ast.Name) else e  # simple local aliases of the collection
+        tested: dict[str, list[ast.AST]] = {}  # collection text -> tested key expressions
+        for n in nodes_:
+            if isinstance(n, ast.Compare) and any(isinstance(o, (ast.In, ast.NotIn)) for o in n.ops):
+                for c in n.comparators:
+                    if _doc_scoped(dr(c)):
+                        tested.setdefault(unparse(dr(c)), []).append(n.left)
+            elif isinstance(n, ast.Call) and isinstance(n.func, ast.Attribute) and n.func.attr in ("intersection", "isdisjoint", "issubset", "issuperset"):
+                both = [n.func.value] + list(n.args)
+                for x in both:
+                    if _doc_scoped(dr(x)):
+                        tested.setdefault(unparse(dr(x)), []).extend(y for y in both if y is not x)
+            elif isinstance(n, ast.BinOp) and isinstance(n.op, ast.BitAnd):
+                for x, y in ((n.left, n.right), (n.right, n.left)):
+                    if _doc_scoped(dr(x)):
+                        tested.setdefault(unparse(dr(x)), []).append(y)
+        if not tested:
+            continue
+        cfg = get_cfg(fi)
+        swapped = {_alias_norm(_state_key(t), fi) for n in nodes_ if isinstance(n, ast.Assign) for t in n.targets if _state_key(t)}
+        for coll, keys in sorted(tested.items()):
+            inserts = [n for n in nodes_ if isinstance(n, ast.Call) and isinstance(n.func, ast.Attribute) and n.func.attr in MARKER_INSERTS and unparse(dr(n.func.value)) == coll]
+            removals = {cfg.stmt_of(n) for n in nodes_ if isinstance(n, ast.Call) and isinstance(n.func, ast.Attribute) and n.func.attr in MARKER_REMOVALS and unparse(dr(n.func.value)) == coll}
+            if not inserts:
+                continue
+            n_markers += 1
+            for ins in inserts:
+                st = cfg.stmt_of(ins)
+                k = f"{fi.fq}|{coll}: in-progress marker removed on every exit"
+                leaks = [t for t in ("EXIT", "RAISE") if cfg.paths_avoiding(st, t, lambda n: n in removals)]
+                if not removals:
+                    rep.violation("C06.R4", k, fi.module.site(ins), f"`{short(ins, 60)}` marks the key as being rendered and nothing in {fi.qualname} removes it again: every later use of the same key is refused as circular")
+                elif leaks:
+                    how = " and ".join("a return" if t == "EXIT" else "an exception" for t in leaks)
+                    rep.violation(
+                        "C06.R4",
+                        k,
+                        fi.module.site(ins),
+                        f"after `{short(ins, 60)}` {how} can leave {fi.qualname} without passing {', '.join(sorted({short(r, 50) for r in removals}))}: "
+                        "the key stays marked as in progress, so every later substitution/inclusion of it is refused as circular and yields no nodes",
+                    )
+                else:
+                    rep.ok("C06.R4", k, fi.module.site(ins), f"every path passes {', '.join(sorted({short(r, 40) for r in removals}))}")
+            # the key frame
+            k = f"{fi.fq}|{coll}: key does not depend on state swapped for the nested render"
+            key_exprs = list(keys) + [a for ins in inserts for a in ins.args]
+            bad = []
+            for e in _def_closure(key_exprs, fi):
+                for n in ast.walk(e):
+                    if isinstance(n, ast.Call) and (dotted(n.func) or "").split(".")[-1] in RELATIVISING or (isinstance(n, ast.Call) and isinstance(n.func, ast.Attribute) and n.func.attr in RELATIVISING):
+                        last = n.func.attr if isinstance(n.func, ast.Attribute) else dotted(n.func)
+                        basearg = (n.args[1] if len(n.args) > 1 else kwarg(n, "start")) if last == "relpath" else (n.args[0] if n.args else None)
+                        if basearg is None:
+                            continue
+                        reads = {_alias_norm(_state_key(x), fi) for b in _def_closure([basearg], fi) for x in ast.walk(b) if _state_key(x)}
+                        hit = sorted(r for r in reads if any(r == s_ or r.startswith(s_ + "[") or s_.startswith(r + "[") for s_ in swapped))
+                        exact = [r for r in hit if r in swapped]
+                        hit = exact or hit
+                        if hit:
+                            bad.append((n, f"`{short(n, 60)}` makes the key relative to a base derived from {', '.join(hit)}, which {fi.qualname} itself swaps for the nested render: keys pushed at different nesting depths live in different frames and collide (spurious 'circular' refusals) or fail to match"))
+                    if isinstance(n, ast.Call) and (dotted(n.func) or "").split(".")[-1] == "basename":
+                        bad.append((n, f"`{short(n, 60)}` keeps only the last path component: different files share a key"))
+                    if isinstance(n, ast.Attribute) and n.attr in ("name", "stem") and isinstance(n.value, ast.Name) and n.value.id != "self" and _is_pathlike(n.value, fi):
+                        bad.append((n, f"`{short(n, 40)}` keeps only the file name: different files share a key"))
+            if bad:
+                rep.violation("C06.R4", k, fi.module.site(bad[0][0]), bad[0][1])
+            else:
+                rep.ok("C06.R4", k, fi.module.site(inserts[0]))
+    if n_markers < 2:
+        rep.error("C06.R4", f"expected the include stack and the substitution reference set as in-progress markers, found {n_markers}")
+
+
+def _is_pathlike(e: ast.Name, fi: FunctionInfo) -> bool:
+    """A local bound (somewhere) from a ``Path(...)`` / ``.joinpath`` / ``.parent`` / ``.absolute()`` expression."""
+    for names, val in _bindings(fi):
+        if e.id in names:
+            for x in ast.walk(val):
+                if isinstance(x, ast.Call) and ((dotted(x.func) or "").split(".")[-1] in ("Path", "PurePath", "joinpath", "absolute", "resolve")):
+                    return True
+                if isinstance(x, ast.Attribute) and x.attr == "parent":
+                    return True
+    return False
 
 
 # ---------------------------------------------------------------------------
@@ -1796,6 +1952,35 @@ def mutants(corpus: Corpus):
             out.append(("c06-revert-aec6256-include-pops-relative-settings", "the restoring assignments are gone"))
     else:
         out.append(("c06-include-finally", "include mock has no try/finally around the nested render"))
+
+    # in-progress markers (class: marker left behind on some exit / key computed in a depth-dependent frame)
+    upd = find_node(sub, lambda n: isinstance(n, ast.Expr) and is_call(n.value, "update") and "sub_references" in unparse(n.value.func.value))
+    tr0 = find_node(sub, lambda n: isinstance(n, ast.Try) and n.handlers and any(is_call(x, "render") for b_ in n.body for x in ast.walk(b_)))
+    if upd is not None and tr0 is not None:
+        # record the names before the (fallible) Jinja render: the error path returns without removing them
+        src2 = splice(base.src, upd, "pass")
+        t2 = ast.parse(src2)
+        tr2 = next(n for n in ast.walk(t2) if isinstance(n, ast.Try) and n.lineno == tr0.lineno)
+        refs = "{n.name for n in env.parse(f\"{{{{{token.content}}}}}\").find_all(jinja2.nodes.Name) if n.name != \"env\"}"
+        ind = _indent(base, tr0)
+        pre = (
+            'self.document.sub_references = getattr(self.document, "sub_references", set())\n'
+            + ind + "references = " + refs + "\n"
+            + ind + "self.document.sub_references.update(references)\n"
+            + ind
+        )
+        out.append(Mutant("c06-substitution-marks-before-fallible-render", "C06.R4", base.rel, splice(src2, tr2, pre + (ast.get_source_segment(src2, tr2) or "")), expect="in-progress marker removed on every exit"))
+    else:
+        out.append(("c06-substitution-marks-before-fallible-render", "update()/render try not found"))
+    fin_sub = find_node(sub, lambda n: isinstance(n, ast.Expr) and is_call(n.value, "difference_update"))
+    add("c06-substitution-marker-never-removed", "C06.R4", base, fin_sub, "pass", "sub_references: in-progress marker")
+    if tr is not None:
+        popst = next((s_ for s_ in tr.finalbody if isinstance(s_, ast.Expr) and is_call(s_.value, "pop") and "myst_include_stack" in unparse(s_.value.func.value)), None)
+        add("c06-include-stack-not-popped", "C06.R4", mk, popst, "pass", "myst_include_stack: in-progress marker")
+    kd = find_node(inc, lambda n: isinstance(n, ast.Assign) and isinstance(n.targets[0], ast.Name) and n.targets[0].id == "include_key")
+    add("c06-include-key-relative-to-swapped-source", "C06.R4", mk, kd.value if kd else None, "os.path.relpath(path, source_dir)", "key does not depend on state swapped")
+    add("c06-include-key-file-name-only", "C06.R4", mk, kd.value if kd else None, "path.name", "key does not depend on state swapped")
+    add("c06-include-key-relative-to-document-dir", "C06.R4", mk, kd.value if kd else None, 'str(path.relative_to(Path(self.document["source"]).parent))', "key does not depend on state swapped")
 
     # ---- R5
     run = base.func(R + "run_directive")
